@@ -24,6 +24,7 @@ enum { VF_ST_DONE = 0, VF_ST_FATAL = 1, VF_ST_HORIZON = 2, VF_ST_MISMATCH = 3 };
 
 typedef struct {
 	int alive, is_file, src, srcpos, handle_valid, user_mem;
+	int eof_told;        /* the source has answered 'end of input' and neither yywrap nor the user has intervened since */
 	vf_ref R;
 	yybuffer h;
 } vf_mbuf;
@@ -134,6 +135,9 @@ static int vf_read_from(FILE *f, char *buf, size_t max_size)
 	if (k < 0 || k >= VF_NSRC) vf_fail("read from a FILE the harness never supplied", k, 0);
 	if (c < 0 || !vf_B[c].alive || !vf_B[c].is_file) vf_fail("read request while the current buffer is not a file buffer", c, k);
 	if (vf_B[c].src != k) vf_fail("read request for another buffer's source", vf_B[c].src, k);
+	/* a source that has reported its end is not asked again before yywrap has been consulted: end of input need not be sticky
+	 * (a terminal), and the scanner remembers it (YY_BUFFER_EOF_PENDING) while it delivers the pending token */
+	if (vf_B[c].eof_told) vf_fail("the source already reported end of input and is asked again before yywrap was consulted", c, k);
 	avail = vf_srcs[k].n - vf_B[c].srcpos;
 	n = avail;
 	if ((size_t)n > max_size) n = (int)max_size;
@@ -142,6 +146,7 @@ static int vf_read_from(FILE *f, char *buf, size_t max_size)
 #endif
 	if (n > 0) memcpy(buf, vf_srcs[k].d + vf_B[c].srcpos, (size_t)n);
 	vf_B[c].srcpos += n;
+	if (n == 0) vf_B[c].eof_told = 1;
 	return n;
 }
 #if defined(VF_API_C99)
@@ -255,6 +260,7 @@ int yywrap(yyscan_t yyscanner)
 #endif
 	vf_step();
 	vf_n_wraps++;
+	if (c >= 0) vf_B[c].eof_told = 0;
 	if (c >= 0 && vf_B[c].alive && vf_B[c].R.head < vf_B[c].R.tail) vf_fail("yywrap consulted with input left in the current buffer", c, 0);
 	k = vf_fresh_src();
 	{
@@ -286,7 +292,7 @@ int yywrap(yyscan_t yyscanner)
 		yyset_in(VF_FAKE(k), yyscanner);
 #endif
 		vf_src_used[k] = 1;
-		vf_B[c].src = k; vf_B[c].srcpos = 0;
+		vf_B[c].src = k; vf_B[c].srcpos = 0; vf_B[c].eof_told = 0;
 		vf_ref_init(&vf_B[c].R, vf_srcs[k].d, vf_srcs[k].n, 0);
 		vf_yyin_src = k; vf_yyin_fresh = 0;
 		return 0;
@@ -331,7 +337,7 @@ static int vf_eof_new_yyin(void)
 {
 	int k = vf_fresh_src(), c = vf_cur();
 	vf_src_used[k] = 1;
-	vf_B[c].src = k; vf_B[c].srcpos = 0;
+	vf_B[c].src = k; vf_B[c].srcpos = 0; vf_B[c].eof_told = 0;
 	vf_ref_init(&vf_B[c].R, vf_srcs[k].d, vf_srcs[k].n, 0);
 	vf_yyin_src = k; vf_yyin_fresh = 0;
 	return k;
@@ -509,6 +515,7 @@ static int vf_between_calls(void)
 				yy_flush_buffer(VF_CUR() VF_S1);
 			} else
 				yy_flush_buffer(vf_B[b].h VF_S1);
+			vf_B[b].eof_told = 0;               /* a flushed buffer is filled anew */
 			/* discards only what has been buffered: for a file buffer the bytes already handed over, for an in-memory buffer everything */
 			if (vf_B[b].is_file) vf_B[b].R.head = VF_FRONT + vf_B[b].srcpos; else vf_B[b].R.head = vf_B[b].R.tail;
 			vf_B[b].R.bol = 1; vf_B[b].R.more_len = 0;
@@ -576,7 +583,7 @@ static int vf_between_calls(void)
 			vf_stk[vf_sp > 0 ? vf_sp - 1 : vf_sp++] = b;
 			vf_B[b].h = VF_CUR(); vf_B[b].handle_valid = 1;     /* a user who wants to delete it later notes yy_current_buffer() */
 		} else {
-			vf_B[c].src = k; vf_B[c].srcpos = 0; vf_B[c].is_file = 1;
+			vf_B[c].src = k; vf_B[c].srcpos = 0; vf_B[c].eof_told = 0; vf_B[c].is_file = 1;
 			vf_ref_init(&vf_B[c].R, vf_srcs[k].d, vf_srcs[k].n, 0);
 		}
 		vf_yyin_src = k; vf_yyin_fresh = 0; vf_terminated = 0;
@@ -588,7 +595,7 @@ static int vf_between_calls(void)
 		vf_yyin_src = k; vf_yyin_fresh = 1; vf_pending_yyin = 1;
 		if (c >= 0 && vf_terminated) {
 			/* after termination a new yyin continues in the current buffer: unchanged condition, beginning of line */
-			vf_B[c].src = k; vf_B[c].srcpos = 0; vf_B[c].is_file = 1;
+			vf_B[c].src = k; vf_B[c].srcpos = 0; vf_B[c].eof_told = 0; vf_B[c].is_file = 1;
 			vf_ref_init(&vf_B[c].R, vf_srcs[k].d, vf_srcs[k].n, 0);
 			vf_yyin_fresh = 0;
 			vf_terminated = 0;
